@@ -33,7 +33,12 @@ var c18windows = []c18window{
 	{time.Date(2000, 1, 1, 0, 0, 0, 0, time.UTC), time.Date(2000, 1, 1, 1, 0, 0, 0, time.UTC)},
 	{time.Date(2000, 1, 1, 1, 0, 0, 0, time.UTC), time.Date(2000, 1, 1, 2, 0, 0, 0, time.UTC)},
 	{time.Date(1999, 12, 31, 0, 0, 0, 0, time.UTC), time.Date(2000, 1, 2, 0, 0, 0, 1, time.UTC)},
+	// windows that select nothing: zero width, and end before start (only used with conditions of at most one atom)
+	{time.Date(2000, 1, 1, 0, 30, 0, 0, time.UTC), time.Date(2000, 1, 1, 0, 30, 0, 0, time.UTC)},
+	{time.Date(2000, 1, 1, 2, 0, 0, 0, time.UTC), time.Date(2000, 1, 1, 1, 0, 0, 0, time.UTC)},
 }
+
+const c18ordinaryWindows = 3
 
 func c18atomTable(th bool) []cmAtom {
 	a := cmTimeAtoms(cmLiterals(false), true)
@@ -349,16 +354,21 @@ func c18run(r *ev.Run) {
 			seqs = append(seqs, append([]int{}, cur...))
 			return
 		}
-		for w := range c18windows {
+		for w := 0; w < c18ordinaryWindows; w++ {
 			rec(append(cur, w))
 		}
 	}
 	rec(nil)
 	if maxSeq < 3 {
 		// the same window three times in a row (a shortcut for "nothing changed" has to be right too)
-		for w := range c18windows {
+		for w := 0; w < c18ordinaryWindows; w++ {
 			seqs = append(seqs, []int{w, w, w})
 		}
+	}
+	// sequences with an empty window first, last and in the middle
+	var emptySeqs [][]int
+	for z := c18ordinaryWindows; z < len(c18windows); z++ {
+		emptySeqs = append(emptySeqs, []int{z}, []int{0, z}, []int{z, 1}, []int{2, z, 0})
 	}
 	bare := n - 1
 	explore := func(atoms []int, shape, zone int) {
@@ -395,6 +405,13 @@ func c18run(r *ev.Run) {
 	for z := range cmZones {
 		z := z
 		explore(nil, 0, z)
+		saved := seqs
+		seqs = emptySeqs
+		explore(nil, 0, z)
+		for i := 0; i < n; i++ {
+			explore([]int{i}, 0, z)
+		}
+		seqs = saved
 		parallelFor(n, func(i int) {
 			for s := range cmShapes[1] {
 				explore([]int{i}, s, z)
